@@ -105,6 +105,7 @@ type MuxWorld struct {
 	served     map[string]int
 	rpcOK      int
 	noHeal     bool // C11 shrinking-set phase: the peer neither accepts nor dials
+	stalled    []*simnet.Pair
 }
 
 func (w *MuxWorld) violate(prop, clause, format string, args ...any) {
@@ -300,6 +301,16 @@ func (w *MuxWorld) Actions() []simrt.Action {
 					_ = c.Close()
 				}
 			})
+			add("FAULT peer-accept-stall-writes", 1, true, func() {
+				// the peer accepts but never reads and its window is full: the proxy's writes block
+				w.fault("accept-stall-writes")
+				if c, err := w.peerLis.Accept(); err == nil {
+					pr := w.pairOf(c.(*simnet.Conn))
+					pr.StallWrites(pr.Dialer, true)
+					w.stalled = append(w.stalled, pr)
+					w.addPeerSession(c.(*simnet.Conn), pr, false)
+				}
+			})
 			add("FAULT peer-accept-blackhole", 1, true, func() {
 				w.fault("accept-blackhole")
 				if c, err := w.peerLis.Accept(); err == nil {
@@ -334,6 +345,15 @@ func (w *MuxWorld) Actions() []simrt.Action {
 				w.addPeerSession(c, w.pairOf(c), true)
 			})
 			if faultsOK {
+				add("FAULT peer-dial-and-stall", 1, true, func() {
+					w.fault("dial-stall-writes")
+					if c, err := w.net.Dial(w.proxyAddr); err == nil {
+						pr := w.pairOf(c)
+						pr.StallWrites(pr.Acceptor, true)
+						w.stalled = append(w.stalled, pr)
+						w.addPeerSession(c, pr, true)
+					}
+				})
 				add("FAULT peer-dial-and-close", 2, true, func() {
 					w.fault("dial-close")
 					if c, err := w.net.Dial(w.proxyAddr); err == nil {
@@ -480,6 +500,10 @@ func RunMux(s *simrt.Sim, prof MuxProfile) *Result {
 	w.net.SetRefuse(w.peerAddr, false)
 	for _, p := range w.net.Pairs() {
 		p.Partition(false)
+	}
+	for _, p := range w.stalled {
+		p.StallWrites(p.Dialer, false)
+		p.StallWrites(p.Acceptor, false)
 	}
 	if !w.shutDown {
 		full := func() bool {
